@@ -33,6 +33,10 @@ REPAIR = "signac.project:Project.repair"
 CHECK = "signac.project:Project.check"
 
 
+def common_is_suffix(t):
+    return isinstance(t, ast.BinOp) and isinstance(t.op, ast.Add) and isinstance(t.right, ast.Constant) and isinstance(t.right.value, str) and t.right.value != ""
+
+
 def _is_calc_id_call(ctx, fi, node):
     return isinstance(node, ast.Call) and CALC in common.targets_of(ctx, fi, node)
 
@@ -189,6 +193,17 @@ def c09_a(ctx: Ctx):
                 out.append(ctx.ok(R, fi2, tr, "I/O, JSON and decoding errors of the state point read are mapped to JobsCorruptedError / KeyError", construct=k))
             else:
                 out.append(ctx.viol(R, fi2, hs[0], "the handler never raises JobsCorruptedError", construct=k))
+    # 2b'. the reader opens the state point file and nothing else (no fall-back to backups / temporaries)
+    opens = [c for c in body_nodes(fi2) if isinstance(c, ast.Call) and common.ext_name(ctx, fi2, c) in ("builtins.open", "open", "io.open")]
+    for c in opens:
+        t = common.inline_at(ctx, fi2, c.args[0], c) if c.args else None
+        txt = canon(t) if t is not None else ""
+        k = WSREAD + "|reads:" + stmt_key(c.args[0], 30) if c.args else WSREAD + "|reads"
+        if "FN_STATE_POINT" in txt and "~" not in txt and not common_is_suffix(t):
+            out.append(ctx.ok(R, fi2, c, "reads <workspace>/<id>/FN_STATE_POINT", construct=k))
+        else:
+            out.append(ctx.viol(R, fi2, c, f"the state point reader also opens {txt[:60]}: a parked backup / temporary is accepted as the job's state point, so a job whose state point file is "
+                                "missing (crash between the two renames of a re-key) validates and check() stays silent", construct=k))
     # 2c. registration overwrites: a validated state point replaces whatever an unvalidated look-up left in the cache
     reg = ctx.fn("signac.project:Project._register")
     st = [n for n in body_nodes(reg) if isinstance(n, ast.Assign) and any(isinstance(t, ast.Subscript) and canon(t.value) == "self._sp_cache" for t in n.targets)]
@@ -232,6 +247,19 @@ def c09_a(ctx: Ctx):
             out.append(ctx.viol(R, g, n, f"{what} receives {stmt_key(val, 50)}, which is not the result of the validating load()"))
     if not found:
         out.append(ctx.inc(R, g, g.node, "lazy state point branch: no cache write / _register found"))
+    gcfg = ctx.cfg(g)
+    clears = [n.id for n in gcfg.stmt_nodes() if isinstance(n.ast, ast.Assign) and any(canon(t) == "self._statepoint_requires_init" for t in n.ast.targets)
+              and ctx.fold(n.ast.value, g) is False]
+    loads = [n.id for n in gcfg.stmt_nodes() if n.kind == "stmt" and any(isinstance(c, ast.Call) and LOAD in common.targets_of(ctx, g, c) for c in walk_no_nested(n.ast))]
+    if clears and loads:
+        after = gcfg.reachable(clears, kinds="n")
+        if any(l in after for l in loads):
+            out.append(ctx.viol(R, g, gcfg.nodes[clears[0]].ast, "the 'state point still has to be initialised' flag is cleared before the validating load(): if that load raises (damaged or missing file) "
+                                "the next access on the same handle skips the load and hands out the empty, unvalidated state point - which init() then writes to disk", construct=g.qual + "|flag-after-load"))
+        else:
+            out.append(ctx.ok(R, g, gcfg.nodes[clears[0]].ast, "the lazy-init flag is cleared only after the validating load() succeeded", construct=g.qual + "|flag-after-load"))
+    else:
+        out.append(ctx.inc(R, g, g.node, "lazy-init flag / load not found in the state point getter", construct=g.qual + "|flag-after-load"))
     # 5. unvalidated reads only in repair
     for f in ctx.prog.funcs.values():
         if f.module.is_dep:
